@@ -14,6 +14,7 @@ fn fixed_tree() -> Spec {
             f("a"),
             Spec::Dir(b"b".to_vec(), vec![f("c"), Spec::Dir(b"d".to_vec(), vec![f("e")]), f("a")]),
             f("f"),
+            f("("),
             Spec::Link(b"g".to_vec(), b"a".to_vec()),
             Spec::Dir(b"h".to_vec(), vec![]),
         ],
@@ -40,7 +41,7 @@ pub fn run_prop(ctx: &Ctx, sink: &mut Sink) {
         } else if r < 22 {
             "false".into()
         } else if r < 42 {
-            name_tok(rng.pick(&["a", "b", "c", "d", "e", "t", "h", "g"]).as_bytes())
+            name_tok(rng.pick(&["a", "b", "c", "d", "e", "t", "h", "g", "(", "(", ")", "!"]).as_bytes())
         } else if r < 52 {
             format!("type:{}", rng.pick(&["d", "f", "l"]))
         } else if r < 60 {
